@@ -15,7 +15,7 @@ const LEX: &str = "%%\na 'a'\nb 'b'\nc 'c'\n[ \\t\\n]+ ;\n";
 type LT = DefaultLexerTypes<u32>;
 
 /// can some rule derive just itself (A =>+ A)?
-fn cyclic(grm: &YaccGrammar<u32>) -> bool {
+pub fn cyclic(grm: &YaccGrammar<u32>) -> bool {
     use cfgrammar::{RIdx, Symbol};
     let firsts = grm.firsts();
     let n = usize::from(grm.rules_len());
